@@ -18,11 +18,11 @@ PROOF_NOTE = ("Trusted: Lean 4.33 kernel with axioms {propext, Classical.choice,
 PROPS = {
     "C09": {
         "level": "proof",
-        "text": "Kernel-checked theorems for every label list (= every schedule, number of senders, capacity): mailbox occupancy + reserved permits <= capacity; capacity/default/once-only configuration proved on functions translated from src/lib.rs on every run. The model is validated against the real crate by per-run correspondence (seeded scripts on a paused Tokio runtime) and the occupancy monitor runs on every real trace.",
+        "text": "Kernel-checked theorems for every label list (= every schedule, number of senders, capacity): mailbox occupancy + reserved permits <= capacity; capacity/default/once-only configuration proved on functions translated from src/lib.rs on every run. The model is validated against the real crate by per-run correspondence (seeded scripts on a paused Tokio runtime) and the occupancy monitor runs on every real trace. Real threads: a spawn_blocking sender's blocking_tell(.., None) calls into a full capacity-1 mailbox all wait and return Ok (stress blocking a2); a cancelled send holds no slot (stress cancel).",
         "note": PROOF_NOTE,
         "technique": "Lean 4 invariant proof by induction over label sequences + translated config functions + model/implementation correspondence",
         "monitors": ["C09"],
-        "extra": ["tables"],
+        "extra": ["tables", "stress"],
         "corr": corr(["shutdown", "burst", "mixed", "timeouts"]),
         "extract_items": ["DEFAULT_MAILBOX_CAPACITY", "set_default_mailbox_capacity", "spawn_capacity", "spawn_with_mailbox_capacity"],
         "assumptions": COMMON_ASSUME + ["a granted-but-unpushed permit reserves a slot (the bound is on pushed + granted)"],
@@ -37,41 +37,41 @@ PROPS.update({
         "technique": "Lean 4 invariant proofs (FIFO log, id freshness, rejection) by induction over label sequences + correspondence + Lean monitors on real traces",
         "extra": ["stress"],
         "monitors": ["C01"],
-        "corr": corr(["eager", "shutdown", "burst", "mixed", "handles", "timeouts"]),
+        "corr": corr(["abandon", "eager", "shutdown", "burst", "mixed", "handles", "timeouts"]),
         "extract_items": ["ask_wait_watches_closed"],
         "assumptions": COMMON_ASSUME,
     },
     "C02": {
         "level": "proof",
-        "text": "Kernel-checked: handler starts are exactly the envelopes of the taken prefix of the acceptance log, in order; the mailbox is the remaining suffix; an item is accepted at most once; the log only grows at its end - for every schedule, capacity and operation mix, the stop marker being an ordinary item of the same queue. stop() in band: before_stop_handled (everything accepted before the dequeued marker has been handled), after_stop_never_handled (nothing accepted behind a marker is ever handled, in any reachable state), nothing_after_stop_begins (no handler starts once the loop has left its select; via the invariant that the dequeue pointer never passes a marker). Correspondence + monitors C02.fifo / idxInOrder / stopPrefix / stopCallOrder / nothingAfterStopReturned on real traces (acceptance order observed by the probe).",
+        "text": "Kernel-checked: handler starts are exactly the envelopes of the taken prefix of the acceptance log, in order; the mailbox is the remaining suffix; an item is accepted at most once; the log only grows at its end - for every schedule, capacity and operation mix, the stop marker being an ordinary item of the same queue. stop() in band: before_stop_handled (everything accepted before the dequeued marker has been handled), after_stop_never_handled (nothing accepted behind a marker is ever handled, in any reachable state), nothing_after_stop_begins (no handler starts once the loop has left its select; via the invariant that the dequeue pointer never passes a marker). Correspondence + monitors C02.fifo / idxInOrder / stopPrefix / stopCallOrder / nothingAfterStopReturned on real traces (acceptance order observed by the probe). Real-time side: stress scenario `cancel` - a tell / ask / stop() cancelled by its caller while parked on a full capacity-1 mailbox was never accepted: it is never delivered, holds no slot, and a later stop() through the same handle, a clone, an upgraded weak reference or a boxed ActorControl stops the actor (everything accepted before it handled, nothing accepted after it returned handled).",
         "note": PROOF_NOTE,
         "technique": "Lean 4 invariant proof (mailbox = suffix of acceptance log) + correspondence + Lean monitors on real traces",
         "extra": ["stress"],
         "monitors": ["C02"],
-        "corr": corr(["eager", "shutdown", "burst", "mixed", "timeouts"]),
+        "corr": corr(["abandon", "eager", "shutdown", "burst", "mixed", "timeouts"]),
         "extract_items": [],
         "assumptions": COMMON_ASSUME,
     },
     "C10": {
         "level": "proof",
-        "text": "Kernel-checked: Err(Timeout) is returned only by operations given a timeout and never before issue instant + timeout (never_early, on the monitor predicate), the timer label is guarded by the deadline, and is_retryable (translated from src/error.rs on every run) is true exactly for Timeout. Exactness on the virtual clock (fires at the deadline, other outcomes not later) is checked on every real trace by C10.exact and by step-by-step correspondence including return instants.",
+        "text": "Kernel-checked: Err(Timeout) is returned only by operations given a timeout and never before issue instant + timeout (never_early, on the monitor predicate), the timer label is guarded by the deadline, and is_retryable (translated from src/error.rs on every run) is true exactly for Timeout. Exactness on the virtual clock (fires at the deadline, other outcomes not later) is checked on every real trace by C10.exact and by step-by-step correspondence including return instants. Real clock: the reply is produced at once and the runtime thread is then kept busy past the deadline, with the call made from a spawned task and from the runtime's main task (the time driver turns before the caller is polled): the result must be the reply.",
         "note": PROOF_NOTE + " Wall-clock behaviour of the blocking variants is outside the model (see C17).",
         "technique": "Lean 4 invariant proof over label sequences + translated is_retryable + correspondence with virtual-clock return instants",
         "monitors": ["C10"],
         "extra": ["tables", "stress"],
-        "corr": corr(["timeouts", "burst", "mixed"]),
+        "corr": corr(["abandon", "timeouts", "burst", "mixed"]),
         "extract_items": ["ErrorKind"],
         "assumptions": COMMON_ASSUME + ["tokio::time::timeout polls the inner future first and fires no earlier than its deadline"],
     },
     "C13": {
         "level": "proof",
-        "text": "Kernel-checked for every run: dead letters = failing returns, as lists (each dead letter immediately followed by the failing return of the same operation with the matching reason; successes record none), hence the counter equals the number of failures. Real dead letters are captured from the tracing events by an in-process subscriber and compared event by event with the model; monitor C13.ok on every real trace.",
+        "text": "Kernel-checked for every run: dead letters = failing returns, as lists (each dead letter immediately followed by the failing return of the same operation with the matching reason; successes record none), hence the counter equals the number of failures. Real dead letters are captured from the tracing events by an in-process subscriber and compared event by event with the model; monitor C13.ok on every real trace. Every script is run twice, directly and through the type-erased wrappers (Box<dyn TellHandler/AskHandler/ActorControl>), both against the model, and the forwarder table (28 methods, each forwarding verbatim to the inherent method) is a tie of this property too.",
         "note": PROOF_NOTE,
         "technique": "Lean 4 fold-invariant proof over label sequences + correspondence on captured tracing dead-letter events",
         "monitors": ["C13"],
-        "corr": corr(["flood", "eager", "shutdown", "timeouts", "burst", "mixed", "handles"]),
+        "corr": corr(["abandon", "flood", "eager", "shutdown", "timeouts", "burst", "mixed", "handles"], erase="both"),
         "extra": ["stress"],
-        "extract_items": [],
+        "extract_items": ["forwarders"],
         "assumptions": COMMON_ASSUME + ["dead-letter operation labels are compared by family (tell/ask), DESIGN.md §7/C13"],
     },
 })
@@ -108,18 +108,18 @@ PROPS.update({
         "technique": "Lean 4 invariant proofs + progress theorem over label sequences + extraction of the reply-wait protocol + correspondence",
         "extra": ["stress"],
         "monitors": ["C03"],
-        "corr": corr(["eager", "shutdown", "burst", "mixed", "handles", "timeouts", "idle"]),
+        "corr": corr(["abandon", "eager", "shutdown", "burst", "mixed", "handles", "timeouts", "idle"]),
         "extract_items": ["ask_wait_watches_closed", "timeout_wrappers", "blocking_dispatch"],
         "assumptions": COMMON_ASSUME + ["Sender::closed() completes once the receiver is closed or dropped"],
     },
     "C06": {
         "level": "proof",
-        "text": "Kernel-checked: kill_total (in every state kill() is enabled, returns Ok in its own label, queues nothing, records nothing), kill_bound (on the monitor predicate: after kill() on an actor that had not begun to stop at most one further handler starts, for every schedule and queue content; the bound is shown tight), kill_not_lost, kill_prompt. Monitors C06.killTotal / killBound / killOutcome / leftoversFail on every real trace; burst family lands kills at every phase with full mailboxes.",
+        "text": "Kernel-checked: kill_total (in every state kill() is enabled, returns Ok in its own label, queues nothing, records nothing), kill_bound (on the monitor predicate: after kill() on an actor that had not begun to stop at most one further handler starts, for every schedule and queue content; the bound is shown tight), kill_not_lost, kill_prompt. Monitors C06.killTotal / killBound / killOutcome / leftoversFail on every real trace; burst family lands kills at every phase with full mailboxes. Script family `abandon` (sends given up by their callers while queued, then kill / stop / nothing) and, on settled traces, monitor C06.killEnds: an actor on which kill() has returned has ended (the safety half is kill_not_lost + kill_prompt).",
         "note": PROOF_NOTE,
         "technique": "Lean 4 fold-invariant proof (budget argument over the split select) + correspondence + Lean monitors on real traces",
         "extra": ["stress"],
         "monitors": ["C06"],
-        "corr": corr(["eager", "shutdown", "burst", "mixed", "idle"]),
+        "corr": corr(["abandon", "eager", "shutdown", "burst", "mixed", "idle"]),
         "extract_items": [],
         "assumptions": COMMON_ASSUME,
     },
@@ -175,7 +175,7 @@ PROPS.update({
     },
     "C14": {
         "level": "proof",
-        "text": "Kernel-checked: hasPath_spec (the function translated from has_path decides reachability in >= 1 step for every graph: the len() bound always suffices), graph_covers (every unanswered in-flight ask has its edge in every reachable state), closes_panics (self-ask or any chain of in-flight asks back to the asker => the ask panics with the cycle path, inserts no edge, for every cycle length and creation order), waits_otherwise, no_one_left_waiting, asks_to_dead_are_lost, path_starts_with_caller. The protocol steps (check+insert under one lock, all four hooks scoped) are extracted. Real side: random ask topologies (cycles of length 1-5, timeouts, panics, kills) replayed on the model: every model-predicted deadlock must be a real panic with the same cycle path; translation differential on 11,886 graph queries.",
+        "text": "Kernel-checked: hasPath_spec (the function translated from has_path decides reachability in >= 1 step for every graph: the len() bound always suffices), graph_covers (every unanswered in-flight ask has its edge in every reachable state), closes_panics (self-ask or any chain of in-flight asks back to the asker => the ask panics with the cycle path, inserts no edge, for every cycle length and creation order), waits_otherwise, no_one_left_waiting, asks_to_dead_are_lost, path_starts_with_caller. The protocol steps (check+insert under one lock, all four hooks scoped) are extracted. Real side: random ask topologies (cycles of length 1-5, timeouts, panics, kills) replayed on the model: every model-predicted deadlock must be a real panic with the same cycle path; translation differential on 11,886 graph queries. Peers whose on_run fails reach on_stop through the error path (`runerr<k>`): cycles closed by asks made there are part of the generated histories and of the corpus.",
         "note": PROOF_NOTE + " Asks awaited concurrently inside one hook are outside the property (sequential asks only).",
         "technique": "Lean 4 proof (pigeonhole bound for the translated graph walk; protocol invariant) + replay of real histories on the protocol model",
         "monitors": ["C03"],
